@@ -95,7 +95,11 @@ def _cargo_cmd(config):
             "embedded_cli",
         )
     if config == "decls":
-        return os.path.join(VERIF, "fixtures", "decls"), ["--all-targets"], "decls"
+        return os.path.join(VERIF, "fixtures", "decls"), ["--lib"], "decls"
+    if config.startswith("decls-") and config[6:] in fc:
+        feats = ",".join(fc[config[6:]])
+        extra = ["--features", feats] if feats else []
+        return os.path.join(VERIF, "fixtures", "decls"), ["--lib", "--no-default-features"] + extra, "decls"
     raise ExtractError("unknown config " + config)
 
 
@@ -129,11 +133,22 @@ def extract(config, key=None, quiet=True):
                 CARGO_NET_OFFLINE="true",
             )
             env.pop("RUSTC_WRAPPER", None)
-            if config == "decls":
-                # harness crate path-depends on /repo: reuse its lock file so that nothing is resolved
+            tmp_src = None
+            if config.startswith("decls"):
+                # the harness crate path-depends on the repository under analysis: work on a scratch copy whose
+                # dependency path points at REPO, and reuse the repository's lock file so that nothing is resolved
+                tmp_src = tempfile.mkdtemp(prefix="ecli-decls-")
+                dst = os.path.join(tmp_src, "decls")
+                shutil.copytree(cwd, dst, ignore=shutil.ignore_patterns("target", "Cargo.lock"))
+                ct = os.path.join(dst, "Cargo.toml")
+                with open(ct) as f_:
+                    txt = f_.read()
+                with open(ct, "w") as f_:
+                    f_.write(txt.replace('"/repo/embedded-cli"', '"%s/embedded-cli"' % REPO))
                 lock_src = os.path.join(REPO, "Cargo.lock")
                 if os.path.exists(lock_src):
-                    shutil.copy(lock_src, os.path.join(cwd, "Cargo.lock"))
+                    shutil.copy(lock_src, os.path.join(dst, "Cargo.lock"))
+                cwd = dst
             cmd = ["cargo", "+nightly", "check", "--offline"] + cargo_args
             t0 = time.time()
             p = subprocess.run(cmd, cwd=cwd, env=env, stdout=subprocess.PIPE, stderr=subprocess.STDOUT, text=True)
@@ -154,6 +169,8 @@ def extract(config, key=None, quiet=True):
         finally:
             shutil.rmtree(tmp_out, ignore_errors=True)
             shutil.rmtree(tmp_target, ignore_errors=True)
+            if config.startswith("decls") and 'tmp_src' in dir() and tmp_src:
+                shutil.rmtree(tmp_src, ignore_errors=True)
         _evict(keep=key)
     return out_dir
 
